@@ -23,6 +23,12 @@ class Prop(WalletProp):
             for v in PUBV[testnet]:
                 w = self.rand_wspec(rng, testnet)
                 cases.append({"kind": "Watch", "w": w, "export": [44 + H, (1 if testnet else 0) + H, H], "v": v, "sub": [0, rng.randrange(0, 50)]})
+        # the SAME seed and export path on both networks in one process: identical keys, the addresses must still carry each wallet's own tags
+        seed_w = self.rand_wspec(rng, False)
+        for testnet in (False, True, False):
+            w = dict(seed_w, testnet=testnet)
+            for v in PUBV[testnet][:2]:
+                cases.append({"kind": "Watch", "w": w, "export": [44 + H, H, H], "v": v, "sub": [0, 3]})
         # extended keys of nodes whose path carries the OTHER network's coin type (or no standard purpose at all)
         for testnet in (False, True):
             w = self.rand_wspec(rng, testnet)
